@@ -190,7 +190,17 @@ func RealApply(a ApplyArgs) any {
 	for _, c := range a.Chain {
 		chain = append(chain, subst(c, Root, root))
 	}
+	envBefore := env.Clone()
+	chainBefore := append([]string{}, chain...)
 	err = loader.ApplyInclude(context.Background(), subst(a.WD, Root, root), env, model, opts, chain)
+	// aliasing on the real heap: the caller's environment and include chain belong to the caller (the next include
+	// entry, the next document and ResolveEnvironment read them again)
+	if !reflect.DeepEqual(env, envBefore) {
+		return map[string]any{"bad": "ApplyInclude changed the caller's environment"}
+	}
+	if len(chain) != len(chainBefore) || (len(chain) > 0 && !reflect.DeepEqual(chain, chainBefore)) {
+		return map[string]any{"bad": "ApplyInclude changed the caller's include chain"}
+	}
 	if err != nil {
 		return map[string]any{"err": ErrClass(err), "text": core.ScrubErr(err, root)}
 	}
